@@ -360,11 +360,11 @@ def taskFinalize (w : World τ) (t : TaskId) : World τ :=
   w.setDone t
 
 /-- `Scope._collect_exceptions` (context.py:269-296): `(privileged, concurrent children)` -/
-def collectExceptions (w : World τ) (failures : List ExnId) : Option ExnId × List ExnId :=
+def collectExceptions (w : World τ) (failures : List ExnId) (env : Bool := false) : Option ExnId × List ExnId :=
   let rec go : List ExnId → List ExnId → Option ExnId × List ExnId
     | [], acc => (none, acc.reverse)
     | e :: es, acc =>
-      if isPrivilegedCls (w.exn e) then (some e, [])
+      if isPrivilegedCls (w.exn e) || (env && w.exn e == .stopSimulation) then (some e, [])
       else if isCancellationOrClosure (w.exn e) then go es acc
       else go es (e :: acc)
   go failures []
@@ -387,8 +387,9 @@ def newConcurrent (w : World τ) (conc : List ExnId) : World τ × ExnId :=
 `__aexit__` is handling; may allocate the `Concurrent` object -/
 def propagateExceptions (w : World τ) (s : ScopeId) (exc : Option ExnId) : World τ × Propagate :=
   let sc := w.scope s
-  let promoted := match exc with
-    | some e => isPrivilegedCls (w.exn e)
+  -- `EnvironmentScope` (usim/py/core.py): StopSimulation joins PROMOTE_CONCURRENT and `_is_suppressed`
+  let promoted : Bool := match exc with
+    | some e => isPrivilegedCls (w.exn e) || (sc.env && w.exn e == .stopSimulation)
     | none => false
   if promoted then (w, .reraise)
   else
@@ -397,7 +398,7 @@ def propagateExceptions (w : World τ) (s : ScopeId) (exc : Option ExnId) : Worl
       | some e => match w.exn e with
         | .sig sg => sg == sc.cancelSelf || some sg == sc.interrupt
         | _ => false
-    let (priv, conc) := w.collectExceptions sc.failures
+    let (priv, conc) := w.collectExceptions sc.failures sc.env
     if suppressed then
       match priv with
       | some p => (w, .raiseOther p)
